@@ -333,7 +333,7 @@ func (ex *Exec) runBlock(fr *frame) {
 	for ; i < len(blk.Instrs); i++ {
 		ex.steps++
 		if ex.steps > ex.lim.MaxSteps {
-			panic(pathEnd{kind: "budget", msg: "step budget"})
+			panic(pathEnd{kind: "budget", msg: "step budget in " + fr.fn.String()})
 		}
 		if ex.TraceInstr && ex.inInit == 0 {
 			in := blk.Instrs[i]
